@@ -22,6 +22,7 @@ import (
 	"flag"
 	"fmt"
 	"os"
+	"reflect"
 	"runtime/debug"
 	"sort"
 	"strconv"
@@ -66,6 +67,7 @@ type ast struct {
 	ID           string   `json:"id,omitempty"`
 	Props        []prop   `json:"props,omitempty"`
 	IDUnenforced bool     `json:"id_unenforced,omitempty"`
+	Impl         string   `json:"impl,omitempty"` // object: plain (default) | mapped | typed
 	Root         string   `json:"root,omitempty"`
 	Objects      []*ast   `json:"objects,omitempty"`
 	Disc         string   `json:"disc,omitempty"`
@@ -102,7 +104,7 @@ func (a *ast) MarshalJSON() ([]byte, error) {
 	case "object":
 		ps := append([]prop{}, a.Props...)
 		sort.Slice(ps, func(i, j int) bool { return ps[i].Name < ps[j].Name })
-		m["id"], m["props"], m["id_unenforced"] = a.ID, ps, a.IDUnenforced
+		m["id"], m["props"], m["id_unenforced"], m["impl"] = a.ID, ps, a.IDUnenforced, a.impl()
 	case "ref":
 		m["id"] = a.ID
 	case "scope":
@@ -154,6 +156,31 @@ var typeIDs = map[string]schema.TypeID{
 type bindErr string
 
 func (b bindErr) Error() string { return string(b) }
+
+func (a *ast) impl() string {
+	if a.Impl == "" {
+		return "plain"
+	}
+	return a.Impl
+}
+
+// mappedT is the one Go struct struct-mapped and typed objects are bound to: a field for every property
+// name of MappedNames (spec/Compat.tla).  Schema comparison never touches the fields' types.
+type mappedT struct {
+	P    any `json:"p"`
+	Q    any `json:"q"`
+	R    any `json:"r"`
+	S    any `json:"s"`
+	V    any `json:"v"`
+	Next any `json:"next"`
+	X    any `json:"x"`
+	Y    any `json:"y"`
+	Z    any `json:"z"`
+	C    any `json:"c"`
+}
+
+var mappedNames = map[string]bool{"p": true, "q": true, "r": true, "s": true, "v": true, "next": true,
+	"x": true, "y": true, "z": true, "c": true}
 
 func ip(o *opt) *int64 {
 	if o == nil || !o.Some {
@@ -249,6 +276,9 @@ func build1(a *ast) (schema.Type, error) {
 		}
 		return schema.NewMapSchema(k, v, ip(a.Min), ip(a.Max)), nil
 	case "object":
+		if a.impl() == "typed" {
+			return buildTyped(a)
+		}
 		return buildObject(a)
 	case "ref":
 		return schema.NewRefSchema(a.ID, nil), nil
@@ -307,10 +337,54 @@ func buildMember(a *ast) (schema.Object, error) {
 	return o, nil
 }
 
+// buildTyped: the typed wrapper around a struct-mapped object
+func buildTyped(a *ast) (schema.Type, error) {
+	ps, err := buildProps(a)
+	if err != nil {
+		return nil, err
+	}
+	if a.IDUnenforced {
+		return nil, fmt.Errorf("typed object %s with an unenforced ID (not well-formed)", a.ID)
+	}
+	o := schema.NewTypedObject[mappedT](a.ID, ps)
+	if k := o.ReflectedType().Kind(); k != reflect.Struct {
+		return nil, bindErr(fmt.Sprintf("typed object %s reflects as %s, expected a struct", a.ID, k))
+	}
+	if err := checkFlags(a, o); err != nil {
+		return nil, err
+	}
+	return o, nil
+}
+
 func buildObject(a *ast) (*schema.ObjectSchema, error) {
 	if a.Kind != "object" {
 		return nil, fmt.Errorf("expected an object, got %s", a.Kind)
 	}
+	ps, err := buildProps(a)
+	if err != nil {
+		return nil, err
+	}
+	var o *schema.ObjectSchema
+	switch impl := a.impl(); {
+	case impl == "mapped" && !a.IDUnenforced:
+		o = schema.NewStructMappedObjectSchema[mappedT](a.ID, ps)
+		if k := o.ReflectedType().Kind(); k != reflect.Struct {
+			return nil, bindErr(fmt.Sprintf("struct-mapped object %s reflects as %s, expected a struct", a.ID, k))
+		}
+	case impl != "plain":
+		return nil, fmt.Errorf("object %s: impl %s not applicable here (not well-formed)", a.ID, impl)
+	case a.IDUnenforced:
+		o = schema.NewUnenforcedIDObjectSchema(a.ID, ps)
+	default:
+		o = schema.NewObjectSchema(a.ID, ps)
+	}
+	if err := checkFlags(a, o); err != nil {
+		return nil, err
+	}
+	return o, nil
+}
+
+func buildProps(a *ast) (map[string]*schema.PropertySchema, error) {
 	ps := map[string]*schema.PropertySchema{}
 	for _, p := range a.Props {
 		t, err := build(p.Type)
@@ -329,31 +403,35 @@ func buildObject(a *ast) (*schema.ObjectSchema, error) {
 		if p.Disabled {
 			ps[p.Name] = ps[p.Name].Disable(disabledReason)
 		}
+		if a.impl() != "plain" && !mappedNames[p.Name] {
+			return nil, fmt.Errorf("%s object %s with property %s outside the mapped names (not well-formed)", a.impl(), a.ID, p.Name)
+		}
 	}
-	var o *schema.ObjectSchema
-	if a.IDUnenforced {
-		o = schema.NewUnenforcedIDObjectSchema(a.ID, ps)
-	} else {
-		o = schema.NewObjectSchema(a.ID, ps)
+	return ps, nil
+}
+
+// checkFlags: the flags of the AST are what the SDK's accessors report on the built object (binding)
+func checkFlags(a *ast, o schema.Object) error {
+	if o.ID() != a.ID || o.IDUnenforced() != a.IDUnenforced {
+		return bindErr(fmt.Sprintf("object %s (unenforced %v) built as %s (unenforced %v)", a.ID, a.IDUnenforced, o.ID(), o.IDUnenforced()))
 	}
-	// binding: the flags of the AST are what the SDK's accessors report on the built object
 	defaults := o.GetDefaults()
 	for _, p := range a.Props {
 		built, ok := o.Properties()[p.Name]
 		if !ok {
-			return nil, bindErr(fmt.Sprintf("object %s built without its property %s", a.ID, p.Name))
+			return bindErr(fmt.Sprintf("object %s built without its property %s", a.ID, p.Name))
 		}
 		_, inDefaults := defaults[p.Name]
 		if (built.Default() != nil) != p.HasDefault || inDefaults != p.HasDefault {
-			return nil, bindErr(fmt.Sprintf("property %s.%s: has_default=%v in the AST, Default()!=nil is %v, in GetDefaults() %v",
+			return bindErr(fmt.Sprintf("property %s.%s: has_default=%v in the AST, Default()!=nil is %v, in GetDefaults() %v",
 				a.ID, p.Name, p.HasDefault, built.Default() != nil, inDefaults))
 		}
 		if built.Disabled != p.Disabled || built.Required() != p.Required {
-			return nil, bindErr(fmt.Sprintf("property %s.%s: disabled=%v required=%v in the AST, the built property says %v / %v",
+			return bindErr(fmt.Sprintf("property %s.%s: disabled=%v required=%v in the AST, the built property says %v / %v",
 				a.ID, p.Name, p.Disabled, p.Required, built.Disabled, built.Required()))
 		}
 	}
-	return o, nil
+	return nil
 }
 
 const disabledReason = "switched off by the generator"
